@@ -740,6 +740,11 @@ static void do_loop_cond_number () {
  *  The effect is that all called efuns knows that they won't have destructed objects as
  *  arguments.
  */
+#ifdef NEOLITH_VERIF
+/* verification hook: called at every instruction boundary (see /verif/DESIGN.md, H1) */
+void (*neolith_verif_insn_hook) (void) = 0;
+#endif
+
 void eval_instruction (const char *p) {
 
   int i, n;
@@ -754,6 +759,10 @@ void eval_instruction (const char *p) {
   pc = p; // current_prog->program
   while (1)
     {
+#ifdef NEOLITH_VERIF
+      if (neolith_verif_insn_hook)
+        neolith_verif_insn_hook ();
+#endif
       instruction = EXTRACT_UCHAR (pc++);
       if (!--eval_cost)
         {
